@@ -209,7 +209,7 @@ def parts(ctx):
     if not q:
         A(dict(name="bv3-d2", profile=lambda e: P.bv_profile(e, (3,), nsyms=1, consts=(0, 1, 5, 7)), depth=2,
                shards=64, mid_ops=_le2, top_ops=_le2, max_new=1))
-    A(dict(name="str-d1", profile=lambda e: P.str_profile(e, strs=("", "a", "ab", "12", "-5", " 1")), depth=1,
+    A(dict(name="str-d1", profile=lambda e: P.str_profile(e, strs=("", "a", "ab", "12", "-5", " 1", "1\u0663", "\u00b2")), depth=1,
            shards=16, dom={INT: (-2, -1, 0, 1, 2, 3)}))
     A(dict(name="str-d2", profile=lambda e: P.str_profile(e, strs=("", "ab"), ints=(-1, 0, 1)), depth=2,
            shards=32, max_new=1, dom={INT: (-1, 0, 2), STRING: ("", "ab", "12")} if q else
